@@ -103,6 +103,43 @@ CLAIMS = {
              "derivative, margins, or mixed partials.",
         note=TRUST + "bspline_deriv (recursive reference) is taken as the definition for derivative orders >= 2.",
         technique="must-write dataflow on kernels, sibling special-case agreement, call-site wiring rules"),
+    "C06": dict(
+        text="Decides FITS round-trip structure as schema agreement: the writer's HDU/key sequence, name patterns, BITPIX and axis reversal "
+             "(from the resolved cfitsio calls of write_fits_core) equal the documented layout and cover every lookup of read_fits_core, readOrder "
+             "and estimateMemory; every transfer's datatype code matches the buffer element type and the other side's code; BITPIX matches the "
+             "element type; reads substitute no special values; the reserved-key filter and skip conditions are shared by all header passes. "
+             "Does not decide bit-exactness of cfitsio conversions, decoding of the shipped reference files, or independent readers/writers.",
+        note=TRUST + "cfitsio implements the FITS standard for the calls used; datatype code table (TFLOAT=42, ...) from fitsio.h.",
+        technique="schema extraction from resolved library calls, writer/reader/type-code agreement tables"),
+    "C10": dict(
+        text="Decides 'coefficients are non-decreasing along the monotonic dimension' structurally: monotonic branch solves with the non-negative "
+             "solver and copies only its result; every store into the solution vector is 0, a sign-guarded copy, or a clamped trial value; the "
+             "prefix sum has the row-major affine forms of the evaluator's layout with j from 1 and nothing writes the output afterwards; the "
+             "lower-triangular change of basis is applied to basis and penalty of the same dimension. Does not decide the inactive-constraint "
+             "sentence, nor non-finite data.",
+        note=TRUST + "B-splines with non-decreasing coefficients are non-decreasing (assumed theorem); IEEE addition is monotone.",
+        technique="sign-provenance classification of stores, affine index-form agreement, call-wiring rules on the C fitter"),
+    "C11": dict(
+        text="Decides ONE clause only: the vector returned by the solver used by fitting (nnls_normal_block3) is component-wise non-negative "
+             "exactly, by sign provenance of every store into it (including through walk_descents/evaluate_descent). KKT optimality, agreement "
+             "with the unique minimiser, termination and the three other exported solvers are numerical and are not decided.",
+        note=TRUST + "NaN data out of scope (a NaN trial value is not clamped).",
+        technique="sign-provenance classification of stores into the solution vector"),
+    "C14": dict(
+        text="Decides two structural clauses: factorial (the normalisation helper) is total on convolve's arguments including 0 and is the "
+             "canonical product loop with a wide enough result; convolve updates exactly the convolved dimension's shape to order+n-1, "
+             "nknots*n (counter in a perfect loop nest), nknots'-order'-1, recomputes strides, touches no other dimension, and cannot leave a "
+             "modified unprotected table. The convolution integral identity itself is numerical and is not decided.",
+        note=TRUST + "Admitted range: order <= 5, kernels of <= 6 knots ((k+q-1)! <= 10!).",
+        technique="unsigned-wrap/totality rule, symbolic post-state (affine forms) of the shape members"),
+    "C19": dict(
+        text="Decides that estimateMemory's size model has capacity (same element size, same affine count, same loop depth) for every allocation "
+             "the reader makes through the allocator, with the auxiliary entries covered under the card-length lemma; that its convolution "
+             "adjustments equal the shape convolve produces; that convolve releases each member before allocating its replacement and uses the "
+             "allocator for members only; and that owned members only ever receive allocator memory. Does not decide allocator overhead or "
+             "files that are not well-formed.",
+        note=TRUST + "Card-length lemma: strlen(key)+1+strlen(value)+1 <= 82 for any card cfitsio returns.",
+        technique="allocation-site enumeration vs size-model terms (affine capacity matching), release-before-allocate dataflow"),
 }
 
 NOT_APPLICABLE = {
@@ -112,5 +149,4 @@ NOT_APPLICABLE = {
 }
 
 # properties whose check is designed (DESIGN.md §4) but not yet built in this tree
-PENDING = {p: "static check designed in DESIGN.md §4 but not built yet in this tree; not claimed until it runs"
-           for p in ("C06", "C10", "C11", "C14", "C19")}
+PENDING = {}
